@@ -35,6 +35,7 @@ let item c =
   | t -> raise (Bad ("item " ^ t))
 let spec_line ts os =
   let s = scenario ts in
+  if not (valid s) then true (* not a scenario the property speaks about: not judged *) else
   let c = { rest = (if os = [":none"] then [] else os) } in
   let rec go acc = if at_end c then List.rev acc else go (item c :: acc) in
   spec s (go [])
